@@ -420,6 +420,11 @@ def child_hashes(seeds):
         t = Tape(seed=s)
         flavour = {"nonascii": t.chance(1, 3), "sites": t.chance(1, 2), "nonbmp": t.chance(1, 8)}
         pws, opts = trainer.gen_list(t, flavour)
+        if flavour["sites"]:
+            # addresses and hosts in which more than one known top-level domain occurs: which one ends the segment must not
+            # depend on the order a set happens to iterate in
+            for _ in range(t.between(1, 3)):
+                pws.insert(t.draw(len(pws) + 1), t.choice(trainer.EMAILS[3:] + trainer.SITES[3:]) + t.choice(["", "1", "!", "99"]))
         scratch.fresh_disk()
         with guesser.streams():
             tr = trainer.train(pws, opts, uuid_seed=s % 1000)
@@ -434,7 +439,7 @@ def extra_phase(tier, base_seed, prop="C06"):
     seeds = [base_seed * 31337 + 5000 + i for i in range(n)]
     runs = []
     here = os.path.dirname(os.path.dirname(os.path.dirname(os.path.abspath(__file__))))
-    for hs in ("0", "1", "12345"):
+    for hs in ("0", "1", "12345", "987"):
         env = dict(os.environ, PYTHONHASHSEED=hs, PYTHONUTF8="1")
         code = ("import sys, json; sys.path.insert(0, %r); from pcfgsim import scratch; scratch.build(); "
                 "from pcfgsim.checks import training; training.warm(); "
@@ -443,11 +448,12 @@ def extra_phase(tier, base_seed, prop="C06"):
         if r.returncode != 0:
             raise RuntimeError("child interpreter failed: " + r.stderr[-1500:])
         runs.append(json.loads(r.stdout))
-    out = {"fresh_interpreter_trainings": 3 * n, "hash_seeds": [0, 1, 12345], "violations": []}
+    out = {"fresh_interpreter_trainings": 4 * n, "hash_seeds": [0, 1, 12345, 987], "violations": []}
     for s in seeds:
-        a, b, c = (r[str(s)] for r in runs)
-        if not (a == b == c):
-            diff = sorted(k for k in set(a or {}) | set(b or {}) | set(c or {}) if not ((a or {}).get(k) == (b or {}).get(k) == (c or {}).get(k)))
+        a, b, c, d = (r[str(s)] for r in runs)
+        if not (a == b == c == d):
+            diff = sorted(k for k in set(a or {}) | set(b or {}) | set(c or {}) | set(d or {})
+                          if not ((a or {}).get(k) == (b or {}).get(k) == (c or {}).get(k) == (d or {}).get(k)))
             out["violations"].append({"seed": s, "tape": [], "violation": {
                 "property": "C06", "kind": "ruleset_depends_on_hash_seed", "key": None,
                 "detail": {"list_seed": s, "files": diff[:6]}}, "case": None})
